@@ -16,6 +16,15 @@ CHECKS = {
     "C05": dict(cat="model_checking", ref="§4 C05", tech="TLC exhaustive model checking of ApiImpl (BlockRng/BlockRng64/via-next) with refinement to Stream (C05 as a TLA+ spec); transition cover generated from TLC's state graph replayed on all 20 generator types; trace validation against Stream with a native-call twin",
                 text="The API machine is explored exhaustively for the real buffer lengths (16, 256) and every transition is checked to refine the one-forward-stream specification; every selected edge of that graph plus seeded random interleavings is executed on the real types and each returned byte is validated by TLC against the specification instantiated with the words of an identically seeded twin.",
                 note=TB + "; fill lengths for the 256-word buffers are explored in classes around 0, 1 and 2 blocks, not all lengths; seeds are a corpus"),
+    "C12": dict(cat="model_checking", ref="§4 C12", tech="TLA+ specification of the Jitterentropy collection (Jitter.tla) evaluated by TLC on recorded traces of JitterRng over scripted timers; full-state conformance through cfg(rngs_verif) accessors",
+                text="Every recorded call of a real JitterRng (next_u32/next_u64/fill_bytes/timer_stats/set_rounds/clone) carries the timer readings it consumed; TLC recomputes priming, every LFSR fold, stuck test, rotation, the stir, the memory-walk position, the pending-half flag, the returned value and the exact number of readings, and rejects the first event that differs.",
+                note=TB + "; scripted timers are a corpus (structured delta patterns + random); where the property leaves Z vs mod-2^32 differences open both are accepted"),
+    "C13": dict(cat="model_checking", ref="§4 C13", tech="TLC exhaustive model checking of the code-shaped test_timer decision against the outcome relation of the property over all boundary summaries; boundary cases realised as timer scripts; trace validation of real test_timer outcomes against the relation",
+                text="The decision (thresholds, lookup table, log2 formula, set_rounds idiom, process-wide cache) is model-checked over every piece of the piecewise-constant estimate; the visited boundary cases become concrete 1601-reading scripts run through the real test_timer and each returned Ok(r)/Err(e) is checked by TLC against the relation recomputed from the readings consumed.",
+                note=TB + "; JitterRng::new() with the platform timer is modelled (cache) but only smoke-run"),
+    "C14": dict(cat="model_checking", ref="§4 C14", tech="total TLA+ specification (every action defined for every argument, one expected panic) as oracle for recorded traces of an overflow-checked build over hostile corpora",
+                text="All operations run under catch_unwind in the dev (overflow-checked) profile over hostile inputs (timer deltas around +-2^31, 2^32, 2^63, wrap-around, decreasing; extreme seeds; fill lengths 0..17, block size +-1); a recorded panic other than set_rounds(0) is a step the total specification cannot take.",
+                note=TB + "; absence of panics is established on the explored corpora, not for all inputs"),
 }
 
 NOT_YET = {}
